@@ -29,7 +29,7 @@ SPEC = dict(
                  '(refused requests are read back from the worker\'s stderr: allocator_may_return_null=1:max_allocation_size_mb=256); linear time: thread CPU <= 50 us*N + 50 ms',
                  'gateways: every other case runs with SetMaxIncomingMessageSize(1 MiB) where the class offers it (MessageIOGateway family, PacketTunnelIOGateway and slave gateways); there a single '
                  'request above 1 MiB + 64 KiB is a violation; without the limit it is only counted (giant_request_without_limit); WebSocket is held to its own 10 MiB frame cap',
-                 'the inflated size announced by a zlib header is not what SetMaxIncomingMessageSize() limits: counted as unspecified_zlib_rawsize_request_above_limit',
+                 'a zlib body may inflate to more than SetMaxIncomingMessageSize() allows (the limit is on received bytes) but, since F57, never beyond 1100 x its length: only a declared size within that ratio is excused (unspecified_zlib_inflated_size_within_1100x_but_above_limit), larger ones are judged',
                  'the C gateways have no Reset(): a fresh gateway is used; MGDoInput allocates what the header declares and offers no limit (counted only)',
                  'fidelity of what an ACCEPTED input means (valid C++ encodings rejected by the C codecs, templated round trip) is the subject of C01/C03/C08 and only counted here',
                  'zcodec: allocation <= 1100*N + 1 MiB (deflate expands at most 1032:1); after any outcome a following INDEPENDENT buffer must inflate correctly, dependent buffers are promised nothing after an error or a gap; '
@@ -51,7 +51,7 @@ SPEC = dict(
         _sweep('cgw_sweep', 'cgw', 700000, 1500, 300), _sweep('text_sweep', 'text', 300000, 2000, 0), _sweep('raw_sweep', 'raw', 300000, 2000, 0), _sweep('slip_sweep', 'slip', 300000, 2000, 0), _sweep('zcodec_sweep', 'zcodec', 600000, 1500, 300),
     ],
     min_stats={
-        'regress': {'regress_witnesses': 13, 'regress_post_failure_walks': 300, 'regress_F5_rejected': 1000, 'regress_micro_walks': 500},
+        'regress': {'regress_witnesses': 14, 'regress_post_failure_walks': 300, 'regress_F5_rejected': 1000, 'regress_micro_walks': 500},
         'msg': {'cases_msg': 50000, 'post_failure_object_walks_msg': 20000, 'accepted_msg': 5000, 'rejected_msg': 20000, 'sweep_truncations': 3000, 'sweep_word_values': 5000, 'truncations_inside_the_first_12_bytes': 300,
                 'family_valid': 500, 'family_structure': 3000, 'family_random': 5000, 'role_nfields': 300, 'role_namelen': 1000, 'role_type': 2000, 'role_paylen': 1000, 'role_count': 500,
                 'role_itemlen': 500, 'role_subsize': 200, 'role_nest': 300, 'reuse_after_failure': 15000, 'reuse_after_success': 500, 'max_items_walked': 300, 'max_alloc_ratio_x100_valid_msg': 1},
